@@ -289,6 +289,8 @@ func ruleC05(c *Check) {
 		}
 		c.req(n > 0, "C05.7", "EndBlocker#bank", eb.Body.Pos(), fmt.Sprintf("%d bank effects at end of block", n))
 	}
+	// end-of-block lowers a consumer's balance only together with issuing its batch in that block
+	c.newBatchRules("C05.7", map[string]bool{"credit-without-obligation": true, "skip-with-charge": true})
 }
 
 func effMentions(e *Eff, term string) bool {
